@@ -2,7 +2,8 @@
 
 Decided statically: the closed set of growth sites per bounded container; each growth is an update of an existing key or
 is preceded, on every path, by a `len ≥ capacity ⇒ evict` guard in integer normal form (so `>=` vs `>` is visible); the
-cache map and its LRU index move in lock-step; eviction/drain code never deletes from the canonical store.  The bound as
+cache map and its LRU index move in lock-step; eviction/drain code never deletes from the canonical store; the field each
+guard compares with is the constructor's parameter, stored unchanged and never assigned again (R6).  The bound as
 arithmetic over whole histories and concurrency are not decided.
 """
 import re
@@ -15,7 +16,8 @@ MANIFEST = {
             'that every growing insert is an update of a present key or is reached only past `len(container) − capacity ≥ 0 ⇒ '
             'pop_lru + remove` (path-sensitive, comparison in integer normal form), that the recent-write tier is drained or the '
             'insert refused at the hard limit before the canonical write, that map and LRU index are mutated together, and that '
-            'eviction and drain never call the canonical delete. The bound over whole histories is not decided.',
+            'eviction and drain never call the canonical delete. The compared bound is the configured value: every constructor stores its own parameter unchanged, the cache '
+            'strategies pass their capacity on unchanged, nothing assigns the bound fields afterwards (R6). The bound over whole histories is not decided.',
     'design_ref': 'DESIGN.md §4.20',
     'note': 'Trusted base: rustc MIR, integer normal form of the capacity comparison, path-sensitive exploration with marked '
             'eviction calls. Capacity ≥ 1 is assumed (checked by config validation, C18 evidence).',
